@@ -103,16 +103,25 @@ def _worker_init():
     sys.setrecursionlimit(3000)
 
 
+_HANGS = 0
+
+
 def _run_shard(args):
-    global _CTX
+    global _CTX, _HANGS
     modname, shard, tier, limit = args
     mod = importlib.import_module(modname)
+    if _HANGS:
+        limit = min(limit, 2.0)          # this worker has already seen a hang: do not wait long for the next one
     ctx = Ctx(limit)
+    if _HANGS >= 3:
+        ctx.extra['shards_skipped_after_repeated_hangs'] += 1
+        return shard, ctx.export(), None
     _CTX = ctx
     err = None
     try:
         mod.run_shard(shard, ctx, tier)
     except HangError:
+        _HANGS += 1
         ctx.violation('hang', ctx.current, 'no progress for %.0f s' % limit)
         ctx.extra['shards_aborted_by_hang'] += 1
     except BaseException:
@@ -311,7 +320,8 @@ def run_check(pid, tier):
     for cls, count, case, detail in new[:25]:
         path = write_replay(pid, cls, case, detail, count, tier, mod)
         try:
-            again = replay_in_fresh_process(path)
+            # a case that hung is not run a second time (it would only hang again): the watchdog's verdict stands
+            again = None if cls == 'hang' else replay_in_fresh_process(path)
         except Exception as ex_:
             again = None
             harness_errors.append(('replay', str(ex_)))
@@ -340,7 +350,8 @@ def run_check(pid, tier):
         states=tot['states'], transitions=tot['transitions'], traces_validated_against_impl=tot['validated'],
         evaluations=tot['evals'], distinct_nontrivial=tot['nontrivial'],
         rule=info['rule'] + ' Non-trivial: ' + info.get('nontrivial', 'every case'),
-        samples=samples, exhaustive=bool(info.get('exhaustive', True)) and not extra.get('shards_aborted_by_hang'),
+        samples=samples, exhaustive=bool(info.get('exhaustive', True)) and not extra.get('shards_aborted_by_hang')
+        and not extra.get('shards_skipped_after_repeated_hangs'),
         bounds=info.get('bounds'), shards=len(shards), workers=procs,
         skipped_unspecified=dict(skipped), distinct_outcomes=len(outcomes),
         distinct_outcomes_capped=len(outcomes) >= OUTCOME_CAP, counters=dict(extra),
